@@ -73,8 +73,9 @@ def write_files(sc, work):
                   h=np.array(sc["H"], float), hc=0.0, Cs_r=np.array([num / den for num, den in cs_of(sc)]),
                   dx=(np.array(sc["dxarr"], float) if sc.get("dxarr") else sc.get("dx", 128.0) * (2.0 if (n > 0 and sc.get("grid_variant_in_later_files")) else 1.0)),
                   dy=(np.array(sc["dyarr"], float) if sc.get("dyarr") else sc.get("dy")),
-                  # u and v packed with different scale factors, and differently in every file (the third file of a series is plain float)
-                  U=U, V=V, S=S, W=W, pack=([(2.0 ** -10, 2.0 ** -9), (2.0 ** -9, 2.0 ** -11), None][n % 3] if sc["pack"] else None),
+                  # u and v packed with different scale factors and differently in every file: scale_factor with add_offset = 0, scale_factor alone
+                  # (CF: a missing add_offset is 0), plain float, packed around a non-zero offset
+                  U=U, V=V, S=S, W=W, pack=([(2.0 ** -10, 2.0 ** -9, "both"), (2.0 ** -9, 2.0 ** -11, "sf_only"), None, (2.0 ** -10, 2.0 ** -10, "offset")][(n + sc.get("pack_phase", sc["fm"].get("c", 0))) % 4] if sc["pack"] else None),
                   spack=((0.5, 100.0) if sc.get("spack") else None))      # scalar packed with a non-trivial scale and offset
         names.append(name)
     return names
